@@ -410,6 +410,10 @@ func (db *RockDB) HDel(ts int64, key []byte, args ...[]byte) (int64, error) {
 	if err != nil {
 		return 0, err
 	}
+	if keyInfo.IsNotExistOrExpired() {
+		// an expired hash is absent: nothing to delete (its fields belong to a dead generation)
+		return 0, nil
+	}
 	table := keyInfo.Table
 	rk := keyInfo.VerKey
 	oldh := keyInfo.OldHeader
